@@ -40,7 +40,9 @@ def run(tier):
     for i, v in enumerate(vecs):
         jobs.append(wf.mk_single(i + 1, len(v["bytes"]), stream={"kind": "bytes", "bytes": v["bytes"], "len": -1},
                                  policy=rng.choice(["full", "fixed", "random"]), size=13, rseed=i, tag="vec"))
-    rows, crashed = vlib.run_hz_jobs(hz, "workflow", jobs, nproc=8)
+    order = list(range(len(jobs)))
+    rng.shuffle(order)
+    rows, crashed = vlib.run_hz_jobs(hz, "workflow", [jobs[i] for i in order], nproc=8)
     if crashed:
         run.violation({"kind": "crash"}, {"job": crashed[0]["first_missing"], "stderr": crashed[0]["stderr"][-1000:]})
     discr = 0
@@ -84,6 +86,7 @@ def run(tier):
                 w = rng.choice([3, 5, 17, 64, 257, 1021])
                 st = {"kind": "periodic", "period": [rng.choice([rng.randrange(256), 0x55, 0x0f, 0xaa, 0x33]) for _ in range(w)], "len": -1}
             tj.append(wf.mk_single(jid, nb, stream=st, policy=rng.choice(["full", "fixed", "one", "random"]), size=11, rseed=jid, tag="len"))
+    rng.shuffle(tj)     # call histories: growing and shrinking requests in one process
     rows, crashed = vlib.run_hz_jobs(hz, "workflow", tj, nproc=8)
     if crashed:
         run.violation({"kind": "crash"}, {"job": crashed[0]["first_missing"], "stderr": crashed[0]["stderr"][-1000:]})
